@@ -136,6 +136,8 @@ pub struct SzxOptions {
     /// low three bits of SPCR.chFe (the format guarantees only its MIC/EAR bits 3 and 4, so a
     /// writer may leave anything here); `None` = same as the border
     pub fe_low: Option<u8>,
+    /// bits 3 (MIC) and 4 (EAR/speaker) of SPCR.chFe: the output levels at the time of the snapshot
+    pub fe_hi: u8,
 }
 
 fn chunk(id: &[u8; 4], data: &[u8]) -> Vec<u8> {
@@ -183,7 +185,7 @@ pub fn write_szx(s: &SnapState, opt: &SzxOptions) -> Vec<u8> {
     assert_eq!(z.len(), 37);
     chunks.push(chunk(b"Z80R", &z));
     // SPCR
-    let spcr = [s.border & 7, if s.m128 { s.port_7ffd } else { 0 }, 0, opt.fe_low.map(|x| x & 7).unwrap_or(s.border & 7), 0, 0, 0, 0];
+    let spcr = [s.border & 7, if s.m128 { s.port_7ffd } else { 0 }, 0, opt.fe_low.map(|x| x & 7).unwrap_or(s.border & 7) | (opt.fe_hi & 0x18), 0, 0, 0, 0];
     chunks.push(chunk(b"SPCR", &spcr));
     // RAMP
     let pages: Vec<usize> = if s.m128 { (0..8).collect() } else { vec![5, 2, 0] };
